@@ -61,8 +61,14 @@ def gen_args(rng, case):
     rng.shuffle(objs)
     for o in objs[:rng.randint(0, min(3, len(objs)))]:
         ncols = {"GX": N + 1, "GU": N, "GV": 1, "GVC": N, "GVP": N + 1}[o["g"]]
-        args.append({"what": "guess", "obj": [o["kind"], o["idx"]], "g": o["g"], "slot": o["slot"], "len": o["len"],
-                     "cols": [[jq(dyadic(rng, -3, 3, 2)) for _ in range(o["len"])] for _ in range(ncols)]})
+        a_ = {"what": "guess", "obj": [o["kind"], o["idx"]], "g": o["g"], "slot": o["slot"], "len": o["len"],
+              "cols": [[jq(dyadic(rng, -3, 3, 2)) for _ in range(o["len"])] for _ in range(ncols)]}
+        if o["kind"] == "xall" and not case.get("hosted") and rng.random() < 0.35:
+            # the state guess sampled on grid='control-' (N interval start nodes, a shifted warm start): the final node
+            # keeps its current value; outside the Rocq start-point model, compared with the imperative pipeline only
+            a_["cols"] = a_["cols"][:N]
+            a_["minus"] = True
+        args.append(a_)
     pobjs = param_objects(case)
     tp = [case.get(k, {}).get("param") for k in ("T", "t0")]
     pobjs = [o for o in pobjs if not (o["grid"] == "" and any(v is not None and o["slot"] <= v < o["slot"] + o["len"] for v in tp))]
@@ -195,7 +201,7 @@ def worker(args_):
                 else:
                     kind, idx = a["obj"]
                     s = ocp.x if kind == "xall" else ocp.u if kind == "uall" else B.objs[kind][idx]
-                    e = {"GX": lambda: ocp.sample(s, grid="control")[1], "GU": lambda: ocp.sample(s, grid="control-")[1],
+                    e = {"GX": lambda: ocp.sample(s, grid="control-" if a.get("minus") else "control")[1], "GU": lambda: ocp.sample(s, grid="control-")[1],
                          "GV": lambda: ocp.value(s), "GVC": lambda: ocp.sample(s, grid="control-")[1],
                          "GVP": lambda: ocp.sample(s, grid="control")[1]}[a["g"]]()
                 fargs.append(e)
@@ -235,6 +241,10 @@ def worker(args_):
                         for s in B2.objs["x" if kind == "xall" else "u"]:
                             n_ = s.numel()
                             rows = val[off:off + n_, :]
+                            if a.get("minus"):
+                                # the imperative user keeps the current guess of the final node
+                                cur = np.array(o2.initial_value(o2.sample(s, grid="control")[1])).reshape(n_, -1)
+                                rows = np.hstack([rows, cur[:, -1:]])
                             o2.set_initial(s, rows[0] if n_ == 1 else rows)
                             off += n_
                         continue
@@ -424,6 +434,8 @@ def gen_cases(seed, n, opts):
         calls = [cc for cc in c10.gen_calls(rng, c) if cc["g"] not in ("GbigT", "Gt0")][:3]
         calls.sort(key=lambda cc: cc["after"])
         c["calls"] = calls
+        if i % 4 == 1:
+            c["hosted"] = True
         c["args"] = gen_args(rng, c)
         c["id"] = "C19-%d-%d" % (seed, i)
         # every third case asks for the same Function twice: an unlisted global parameter has another value at the
@@ -436,8 +448,6 @@ def gen_cases(seed, n, opts):
             elif a["what"] == "pcat":
                 listed.update(a["idxs"])
         free = [k for k, d in enumerate(c["params"]) if d.get("grid", "") == "" and k not in listed]
-        if i % 4 == 1:
-            c["hosted"] = True
         if i % 3 == 0 and free and "param" not in c.get("T", {}) and "param" not in c.get("t0", {}):
             k = rng.choice(free)
             d = c["params"][k]
@@ -465,7 +475,7 @@ def run_cases(cps, lqs, name, jobs=16):
         for a in case["args"]:
             key = "%s/%s" % (case["method"]["kind"], a.get("g") or (a["what"] if a["what"] in ("pcat", "vcat") else "P" + a["grid"]))
             dist[key] = dist.get(key, 0) + 1
-        d = judge_case(case, rr[i], mv.get(i))
+        d = judge_case(case, rr[i], None if any(a.get("minus") for a in case["args"]) else mv.get(i))
         if d is None:
             dist["skipped/not-a-valid-input"] = dist.get("skipped/not-a-valid-input", 0) + 1
             continue
